@@ -355,8 +355,12 @@ LOOP:
 					go func(job *CronJob) {
 						c.run(ctx, job)
 					}(job)
-					c.resetTimer()
 				}
+				// Arm the timer for whatever is the head now.
+				// That also covers a head that is not ready:
+				// the job the timer was set for was removed, and
+				// nobody else would wake us up for the others.
+				c.resetTimer()
 			}
 			c.Unlock()
 			// elapsed := time.Now().Sub(now)
